@@ -43,6 +43,16 @@ mut("symeig_gram_not_representable", 1, lambda e: (e.__setitem__("svd", "symeig_
 mut("single_precision_error_on_double_input", 2, lambda e: e["out"].__setitem__("rel_q", 200000))      # 2e-7: float32-level
 e32 = copy.deepcopy(good[2]); e32["id"] = "good_float32_level_error_on_float32_input"; e32["dtype"] = "float32"; e32["out"]["rel_q"] = 200000
 good.append(e32); evs.append(e32)
+rot = {"op": "rotated", "shape": [3, 6, 6, 4], "idx": [[0, 2, 5, 1], [2, 4, 0, 3]], "vals": [5, -2], "exps": [0, -30], "tseed": 11}
+g1 = c09.execute(dict(case("good_graded_exact", "tt", [1, 2, 2, 2, 1], t=rot), rspec="list", frac=0, via="function", pow2=0, dtype="float64"))
+g2 = c09.execute(dict(case("good_graded_truncated", "tt", [1, 1, 2, 2, 1], t=rot), rspec="list", frac=0, via="function", pow2=0, dtype="float64"))
+good += [g1, g2]; evs += [g1, g2]
+def mutg(name, g, f):
+    e = copy.deepcopy(g); e["id"] = name; f(e); evs.append(e)
+mutg("graded_component_lost", g1, lambda e: e["out"].__setitem__("rel_q", 900))                       # 9e-10 relative
+mutg("graded_above_bound", g2, lambda e: e["out"]["err2_lv"].__setitem__(2, e["out"]["err2_lv"][2] * 3))
+mutg("graded_below_best", g2, lambda e: e["out"]["err2_lv"].__setitem__(2, e["out"]["err2_lv"][2] // 3))
+mutg("graded_symeig_not_obliged", g1, lambda e: e.__setitem__("svd", "symeig_svd"))
 rej = chk.validate("SVDDecompTrace", evs, env={"C09_KNOWN_BAD": "exclude"})
 for r in sorted(rej, key=str): print(r[:2])
 print("machinery:", chk.machinery)
